@@ -1,23 +1,9 @@
 import LentilVerif.Lemmas.PlaneAlg
+import LentilVerif.Model.ChainExt
 /-! Extents of the fields a chain of planes produces, computed from the planes' bounding slices alone — so that the side
 conditions of `chain_distrib` (`ChainOK`: no one-element intermediate field) follow from a condition on the *input*. -/
 namespace Lentil
 variable {K R : Type}
-
-def Extent.valid (e : Extent) : Prop := e.rmin ≤ e.rmax ∧ e.cmin ≤ e.cmax
-/-- the extent is a single pixel -/
-def Extent.onePx (e : Extent) : Prop := e.rmin = e.rmax ∧ e.cmin = e.cmax
-
-/-- extent of the product of two array fields (`none`: they do not overlap, the product is dropped) -/
-def mulExtent (e q : Extent) : Option Extent := if intersect e q then some (intersectionExtent e q) else none
-
-/-- extents after one plane whose phasors occupy `qs`, for incoming extents `es` (loop order of `Plane.multiply`) -/
-def stepExtents (qs es : List Extent) : List Extent := es.flatMap fun e => qs.filterMap fun q => mulExtent e q
-
-/-- no one-pixel extent ever arises along the chain; `Q` = the planes' phasor boxes, `es` = the incoming extents -/
-def ExtOK : List (List Extent) → List Extent → Prop
-  | [], _ => True
-  | qs :: rest, es => (∀ e ∈ stepExtents qs es, ¬ e.onePx) ∧ ExtOK rest (stepExtents qs es)
 
 theorem size1_iff_onePx (f : Fld K) : f.size1 = true ↔ f.extent.onePx := by
   unfold Fld.size1 Fld.extent Extent.onePx
@@ -120,15 +106,6 @@ end Lentil
 
 namespace Lentil
 variable {K R : Type}
-
-/-- the box a segment's phasor occupies on the infinite plane: its bounding slice shifted by the plane's centre -/
-def segBox (S0 S1 : Int) (g : Seg) : Extent := ⟨g.s.r0 - S0 / 2, g.s.r1 - 1 - S0 / 2, g.s.c0 - S1 / 2, g.s.c1 - 1 - S1 / 2⟩
-
-/-- the phasor boxes of an array-mask plane — a function of the bounding slices and the shape only -/
-def PlaneM.boxes (p : PlaneM K R) : List Extent :=
-  match p.mask with
-  | .scalar _ => []
-  | .segs S0 S1 l => l.map (segBox S0 S1)
 
 /-- every bounding slice covers its mask, is non-empty and is not a single pixel -/
 def SegsOK (S0 S1 : Int) (l : List Seg) : Prop :=
@@ -358,5 +335,27 @@ theorem fresh_step_ok [Zero K] [Mul K] (ph : R → K) (w0 : Fld K) (h0 : w0.size
   rw [← hqe] at h1
   have := (size1_iff_onePx q).mpr h1
   rw [(hq q hq').1] at this; exact Bool.false_ne_true this
+
+end Lentil
+
+namespace Lentil
+
+theorem onePxb_iff (e : Extent) : e.onePxb = true ↔ e.onePx := by
+  unfold Extent.onePxb Extent.onePx; simp only [Bool.and_eq_true, decide_eq_true_eq]
+
+/-- the Boolean scope test the driver evaluates (`c03.extok`) is the hypothesis `ExtOK` of the end-to-end theorems -/
+theorem extOKb_iff (Q : List (List Extent)) (es : List Extent) : extOKb Q es = true ↔ ExtOK Q es := by
+  induction Q generalizing es with
+  | nil => simp [extOKb, ExtOK]
+  | cons qs rest ih =>
+    simp only [extOKb, ExtOK, Bool.and_eq_true, List.all_eq_true, ih]
+    constructor
+    · rintro ⟨h1, h2⟩
+      exact ⟨fun e he hp => by have := h1 e he; rw [(onePxb_iff e).mpr hp] at this; simp at this, h2⟩
+    · rintro ⟨h1, h2⟩
+      refine ⟨fun e he => ?_, h2⟩
+      cases hb : e.onePxb with
+      | false => rfl
+      | true => exact absurd ((onePxb_iff e).mp hb) (h1 e he)
 
 end Lentil
